@@ -45,6 +45,8 @@ def step_line(g, ei):
         return "S op=%s o=%s n=%d v=%d" % (name, o, args[1], args[2])
     if name == "Write":
         return "S op=Write o=%s i=%d v=%d" % (o, args[1], args[2])
+    if name == "ResizeFillFrom":
+        return "S op=ResizeFillFrom o=%s n=%d i=%d" % (o, args[1], args[2])
     return "S op=%s o=%s" % (name, o)
 
 
@@ -208,9 +210,14 @@ def y_scripts(seed, count):
                     k = min(k, ln[o])
                 steps.append("S op=Resize o=%s n=%d" % (o, k))
                 ln[o] = k
-            else:
+            elif r < 0.92 or ln[o] == 0 or ty not in CLASS_TYPES:
                 k = rnd.choice([0, 1, 2, 3, 7, 16, 40, 64])
                 steps.append("S op=ResizeFill o=%s n=%d v=%d" % (o, k, rnd.randrange(1, 10)))
+                ln[o] = k
+            else:
+                # class types only: every cell of such an array holds a proper value (arithmetic cells may be unspecified)
+                k = rnd.choice([0, 1, 2, 3, 7, 16, 40, 64])
+                steps.append("S op=ResizeFillFrom o=%s n=%d i=%d" % (o, k, rnd.randrange(1, ln[o] + 1)))
                 ln[o] = k
         lines.append("X %s type=%s" % (xid, ty))
         lines += steps
@@ -243,7 +250,7 @@ def y_events(recs, steps, ty):
             unspec[o] = []
         elif op == "Resize":
             unspec[o] = (unspec[o] + [True] * n)[:n]
-        elif op == "ResizeFill":
+        elif op in ("ResizeFill", "ResizeFillFrom"):
             unspec[o] = (unspec[o] + [False] * n)[:n]
         elif op == "Write":
             unspec[o][idx - 1] = False
